@@ -14,7 +14,7 @@ ASSUMPTIONS = ["expected outcomes are computed from the exact condition of the t
                "real suites: deviations are computed with independent big-integer arithmetic mod the group order"]
 TRUSTED = ["modelled, not verified: field/module laws of the curve libraries"]
 
-KINDS = ["plus1", "negated", "zero", "other", "session", "cancel"]
+KINDS = ["plus1", "negated", "zero", "other", "session", "cancel", "nonceflip", "nonceflip+", "nonceflip-"]
 
 
 def attempt(sess, suite, n, t, kind_ids, nsign, cheaters_idx, wkind):
@@ -37,9 +37,26 @@ def attempt(sess, suite, n, t, kind_ids, nsign, cheaters_idx, wkind):
         comms2, nonces2, zs2, resps2 = sign_round(sess, suite, kps, signers, rand_msg(rng) + "00")
         if not all(resps2[i].ok for i in signers):
             return
+    rho = {}
+    if wkind.startswith("nonceflip"):
+        vk_b = pkp_fields(pkp)["vk"]
+        if suite == "secp256k1-tr":
+            vk_b = "02" + vk_b[2:]   # the Taproot suite binds the even-Y form of the group key
+        b = sess.call("bfl %s msg=%s comms=%s vk=%s" % (suite, msg, comms, vk_b), EXACT, "bfl")
+        rho = {x.split(":")[0]: fld.dec(x.split(":")[1]) for x in recs(b["rho"])} if b.ok else {}
+        flip = -2
+        if wkind == "nonceflip" and b.ok and suite == "secp256k1-tr":
+            # Taproot signers negate their nonces when the group commitment has odd Y: the exact flip then has the other sign
+            R = sess.call("group_commitment %s comms=%s bfl=%s" % (suite, comms, b["rho"]), EXACT, "group_commitment")
+            if R.ok and R["R"].startswith("03"):
+                flip = 2
     for j, cidx in enumerate(cheaters):
         h = fld.dec(honest[cidx])
-        if wkind == "plus1":
+        if wkind.startswith("nonceflip") and cidx in rho:
+            # the honest share with the sign of the nonce part flipped: z -/+ 2(d + rho e)
+            nf = nonces_fields(nonces[cidx])
+            v = h + (2 if wkind.endswith("+") else -2 if wkind.endswith("-") else flip) * (fld.dec(nf["hid"]) + rho[cidx] * fld.dec(nf["bnd"]))
+        elif wkind == "plus1":
             v = h + 1
         elif wkind == "negated":
             v = -h
@@ -146,7 +163,8 @@ def generate(sess):
         mismatches(sess, suite)
     for rep in range(4 if thorough else 1):
         for suite in REAL_SUITES:
-            for wk in (KINDS if thorough else rng.sample(KINDS, 2)):
+            # the structured kinds (sign of the nonce part flipped) always run: the Taproot share check has a parity branch
+            for wk in (KINDS if thorough else rng.sample(KINDS[:6], 2) + KINDS[6:7] + rng.sample(KINDS[7:], 1)):
                 nsign = rng.randrange(2, 5)
                 k = rng.randrange(2 if wk == "cancel" else 1, nsign + 1)
                 attempt(sess, suite, nsign + 1, 2, rng.choice(ID_KINDS), nsign, sorted(rng.sample(range(nsign), k)), wk)
